@@ -1,6 +1,7 @@
 #!/bin/bash
 # Build the library objects from /repo's *current working tree* into
-# /verif/build/<flavour>/.  Flavours:
+# $JLS_BUILD_DIR/<flavour>/ (default /verif/build; every check run uses a private directory so that concurrent
+# runs - possibly on different trees - cannot see each other's objects).  Flavours:
 #   plain   gcc -O1, no hooks            (API drivers, crash images, corruption)
 #   verif   gcc -O1 -DJLS_VERIF          (hooks on: small ring buffer for twr)
 #   asan    clang -fsanitize=address,undefined (misuse / bounds)
@@ -9,7 +10,7 @@
 set -e
 FLAV=${1:-plain}; shift || true
 REPO=${JLS_REPO:-/repo}
-OUT=/verif/build/$FLAV
+OUT=${JLS_BUILD_DIR:-/verif/build}/$FLAV
 mkdir -p "$OUT"
 SRCS="bit_shift buffer datatype copy core crc32c ec log msg_ring_buffer raw tmap reader statistics threaded_writer track wr_fsr wr_ts writer backend_posix"
 COMMON="-std=gnu99 -msse4.2 -I$REPO/include -I$REPO/include_prv -g -fno-omit-frame-pointer"
